@@ -94,6 +94,8 @@ func (e *entry) doInit(publicKey PublicKey, expandedPublicKey *ExpandedPublicKey
 	// is flat out incorrect), but the API allows for requesting it.
 	if e.wantCofactorless = vOpts.CofactorlessVerify; e.wantCofactorless {
 		e.signature = sig
+		// Copy, so that the caller is free to reuse sig once Add returns.
+		e.signature = append([]byte(nil), e.signature...)
 	}
 
 	// Validate A, Deserialize R and S.
